@@ -23,7 +23,8 @@ MaxFields == IF "DG_FIELDS" \in DOMAIN IOEnv THEN atoi(IOEnv.DG_FIELDS) ELSE 2
 
 \* Rust types
 IntTypes == {"u8", "u16", "u32", "u64", "usize"}
-Nested == {"N1", "N2"}      \* N1: two optional TLV fields; N2: u8 then a 2-byte BCD number (fixed width, all positional)
+Nested == {"N1", "N2", "N3"} \* N1: two optional TLV fields; N2: u8 then a 2-byte BCD number (fixed width, all positional);
+                             \* N3: a REQUIRED TLV field and an optional one (decoding it from nothing is an error, not an empty value)
 
 \* one field variant: [attr, ty, enc, len, n (fixed width), card]
 IntEncs == {"Le", "Be", "Bcd"}
@@ -49,12 +50,13 @@ Variants ==
      /\ (f.ty \in Nested /\ f.len = "Fixed" => FALSE)
      /\ (f.ty = "N1" => f.len \in {"Llv", "Lllv", "Tlv"})
      /\ (f.ty = "N2" => f.len \in {"Empty", "Llv", "Tlv"})
+     /\ (f.ty = "N3" => f.len \in {"Empty", "Llv", "Tlv"})
      \* keep the variant count manageable: u32 / u64 only in their natural encodings
      /\ (f.ty \in {"u32", "u64"} => (f.enc # "Bcd" /\ f.len \in {"Empty", "Tlv"}))
      /\ (f.card = "vec" => f.len # "Fixed" \/ f.ty \in IntTypes)}
 
 \* consumes the rest of its container
-Greedy(f) == f.len = "Empty" /\ (f.enc \in {"Bcd", "Text", "Hex", "Utf8"})
+Greedy(f) == f.len = "Empty" /\ (f.enc \in {"Bcd", "Text", "Hex", "Utf8"} \/ f.ty = "N3")
 SelfDelimiting(f) == f.len \in {"Llv", "Lllv", "Tlv", "Fixed"} \/ (f.len = "Empty" /\ (f.enc \in {"Le", "Be"} \/ f.ty = "N2"))
 
 WellFormed(fs) ==
